@@ -142,7 +142,11 @@ def gen_plan(j, rng):
                     d.pop("lat", None)
             else:
                 op = {"op": "refresh", "c": c}
+        if rng.random() < 0.08:
+            # a long quiet period (up to beyond the 12 h authentication lifetime) before the next operation
+            op["idle_after"] = rng.choice([30.0, 3700.0, 13 * 3600.0])
         ops.append(op)
+    cfg["backpressure"] = rng.random() < 0.2
     return {"config": cfg, "ops": ops}
 
 
@@ -222,6 +226,9 @@ def run(plan):
 
     async def main(w):
         clients = s.make_clients()
+        if plan["config"].get("backpressure"):
+            w.net.backpressure = 1 / 4096          # writes are buffered by reference and flushed a moment later
+            w.fire("backpressure")
         if s.version == 3:
             for i, c in enumerate(clients):
                 o = await s.do({"op": "auth", "c": i})
@@ -293,7 +300,7 @@ def run(plan):
             else:
                 await s.do(op)
             # idle so that late duplicates are queued before the next exchange starts
-            await asyncio.sleep(0.5)
+            await asyncio.sleep(op.get("idle_after", 0.5))
 
     try:
         w.run(main)
